@@ -1,5 +1,7 @@
 SPECIFICATION Spec
 CONSTANTS
+  Reps = {1}
+  Vias = {"text"}
   N = 3
   MaxCalls = 3
   ArgVals = {0, 1, 2, 3, 4}
